@@ -109,14 +109,14 @@ def analyse_method(mi, class_props):
     """returns the local effect summary of one method"""
     eff = {"reads": [], "writes": [], "pops": [], "memo_set": [], "memo_reset": [], "mutates": [], "calls": []}
 
-    def visit(stmts, none_p, flag, else_of=None):
+    def visit(stmts, none_p, flag, else_of=None, g=()):
         for st in stmts:
             if isinstance(st, ast.If):
                 p1, f1, k1 = _guard_facts(st.test, True)
                 p0, f0, _ = _guard_facts(st.test, False)
                 # a cache read branch: remember the sibling computation for the unguarded-param rule
-                visit(st.body, none_p | p1, flag or f1, else_of=(st, k1, none_p | p1))
-                visit(st.orelse, none_p | p0, flag or f0)
+                visit(st.body, none_p | p1, flag or f1, else_of=(st, k1, none_p | p1), g=g + ((st.lineno, 1),))
+                visit(st.orelse, none_p | p0, flag or f0, g=g + ((st.lineno, 0),))
                 if k1:
                     # value computed in the else branch: which params does it depend on?
                     names = set()
@@ -132,11 +132,11 @@ def analyse_method(mi, class_props):
                 for s in ast.walk(st):
                     if isinstance(s, ast.Call) and isinstance(s.func, ast.Attribute) and s.func.attr == "pop" \
                             and _is_cached(s.func.value) and s.args and isinstance(s.args[0], ast.Name):
-                        eff["pops"].extend(consts)
-                visit(st.body, none_p, flag)
+                        eff["pops"].extend({"key": c, "g": g} for c in consts)
+                visit(st.body, none_p, flag, g=g)
                 continue
             if isinstance(st, (ast.With, ast.Try)):
-                visit(getattr(st, "body", []), none_p, flag)
+                visit(getattr(st, "body", []), none_p, flag, g=g)
                 continue
             # calls anywhere in the statement
             for n in ast.walk(st):
@@ -148,36 +148,42 @@ def analyse_method(mi, class_props):
                                 t = [p for p in mi.taint(_names(kw.value)) if p not in none_p]
                                 eff["writes"].append({"key": kw.arg, "taint": t, "flag": bool(flag)})
                         elif f.attr == "pop" and n.args and isinstance(n.args[0], ast.Constant):
-                            eff["pops"].append(n.args[0].value)
+                            eff["pops"].append({"key": n.args[0].value, "g": g})
                     elif (isinstance(f.value, ast.Name) and f.value.id == "self") or \
                             (isinstance(f.value, ast.Call) and isinstance(f.value.func, ast.Name) and f.value.func.id == "super"):
                         passed = {}
                         for kw in n.keywords:
                             if kw.arg:
                                 passed[kw.arg] = [p for p in mi.taint(_names(kw.value)) if p not in none_p]
-                        eff["calls"].append({"name": f.attr, "super": not isinstance(f.value, ast.Name),
+                        eff["calls"].append({"name": f.attr, "super": not isinstance(f.value, ast.Name), "g": g,
                                              "pos": [[p for p in mi.taint(_names(a)) if p not in none_p] for a in n.args],
                                              "kw": passed})
                 elif isinstance(n, ast.Attribute) and _is_self_attr(n) and n.attr in class_props \
                         and isinstance(n.ctx, ast.Load):
-                    eff["calls"].append({"name": n.attr, "super": False, "pos": [], "kw": {}})
+                    eff["calls"].append({"name": n.attr, "super": False, "pos": [], "kw": {}, "g": g})
             if isinstance(st, (ast.Assign, ast.AugAssign)):
                 targets = st.targets if isinstance(st, ast.Assign) else [st.target]
                 for t in targets:
                     if _is_self_attr(t) and t.attr in MEMO_ATTRS:
                         if isinstance(st.value, ast.Constant) and st.value.value is None:
-                            eff["memo_reset"].append(t.attr)
+                            eff["memo_reset"].append({"key": t.attr, "g": g})
                         else:
                             tn = [p for p in mi.taint(_names(st.value)) if p not in none_p
                                   and (mi.name, p) not in ORDER_ONLY_PARAMS]
                             eff["memo_set"].append({"attr": t.attr, "taint": tn})
                     elif _is_self_attr(t) and t.attr in STATE_ATTRS:
-                        eff["mutates"].append(STATE_ATTRS[t.attr])
+                        eff["mutates"].append({"key": STATE_ATTRS[t.attr], "g": g})
                     elif isinstance(t, ast.Subscript) and (_is_self_attr(t.value, "idxs_ds") or _is_self_attr(t.value, "_idxs_ds")):
-                        eff["mutates"].append("ds")
+                        eff["mutates"].append({"key": "ds", "g": g})
 
     visit(mi.node.body, set(), False)
     return eff
+
+
+def _must(x, mutations):
+    """a pop / reset counts for a mutator only if it executes on every path on which a mutation
+    executes: its guard path is a prefix of the guard path of every mutation (no early returns assumed)"""
+    return all(m["g"][:len(x["g"])] == x["g"] for m in mutations)
 
 
 def extract(repo):
@@ -244,10 +250,11 @@ def extract(repo):
                 return sorted(t)
             out["reads"] += [{"key": r["key"], "unguarded": tr(r["unguarded"])} for r in sub["reads"]]
             out["writes"] += [{"key": w["key"], "taint": tr(w["taint"]), "flag": w["flag"]} for w in sub["writes"]]
-            out["pops"] += sub["pops"]
+            pre = tuple(("call", c["name"]) + x for x in [()]) if False else c["g"]
+            out["pops"] += [{"key": x["key"], "g": pre + (("in", c["name"]),) + x["g"]} for x in sub["pops"]]
             out["memo_set"] += [{"attr": m["attr"], "taint": tr(m["taint"])} for m in sub["memo_set"]]
-            out["memo_reset"] += sub["memo_reset"]
-            out["mutates"] += sub["mutates"]
+            out["memo_reset"] += [{"key": x["key"], "g": pre + (("in", c["name"]),) + x["g"]} for x in sub["memo_reset"]]
+            out["mutates"] += [{"key": x["key"], "g": pre + (("in", c["name"]),) + x["g"]} for x in sub["mutates"]]
         return out
 
     table = []
@@ -267,10 +274,11 @@ def extract(repo):
                 "cls": dyn, "name": name, "public": public, "params": mi.params,
                 "reads": sorted({(r["key"], tuple(r["unguarded"])) for r in eff["reads"]}),
                 "writes": sorted({(w["key"], tuple(w["taint"]), w["flag"]) for w in eff["writes"]}),
-                "pops": sorted(set(eff["pops"])),
+                "pops": sorted({x["key"] for x in eff["pops"] if _must(x, eff["mutates"])}),
+                "cond_pops": sorted({x["key"] for x in eff["pops"] if not _must(x, eff["mutates"])}),
                 "memo_set": sorted({(m["attr"], tuple(m["taint"])) for m in eff["memo_set"]}),
-                "memo_reset": sorted(set(eff["memo_reset"])),
-                "mutates": sorted(set(eff["mutates"])),
+                "memo_reset": sorted({x["key"] for x in eff["memo_reset"] if _must(x, eff["mutates"])}),
+                "mutates": sorted({x["key"] for x in eff["mutates"]}),
             }
             table.append(entry)
     return table
